@@ -14,7 +14,7 @@ import (
 // over the live descriptors so that every schema field (also ones added later)
 // takes part.
 
-var strPool = []string{"x", "y", "zeta", "Ünï cödé", "a:b", "n(1)", "q+r", "[0]", "MIT", "https://example.com/p"}
+var strPool = []string{"100%+free", "a%2Fb", "a%3Fb", "syft-0.98.0", "x", "y", "zeta", "Ünï cödé", "a:b", "n(1)", "q+r", "[0]", "MIT", "https://example.com/p"}
 var purlPool = []string{"pkg:npm/left-pad@1.0.0", "pkg:npm/right-pad@2.0.0", "pkg:golang/github.com/x/y@v1", "pkg:/deb/debian/curl@7", "pkg:generic/z"}
 var hashVals = []string{"aa11", "bb22", "cc33"}
 var timePool = []int64{1577934245, 1577934246, 946684800, 0, 0, -62135596800, 253402300799} // incl. the epoch and the ends of the valid range
@@ -159,6 +159,9 @@ func randList(r *rand.Rand, o listOpts) *sbom.NodeList {
 		for _, id := range targets {
 			if r.Intn(3) == 0 {
 				nl.RootElements = append(nl.RootElements, id)
+				if o.parallel && r.Intn(3) == 0 {
+					nl.RootElements = append(nl.RootElements, id) // the same node named twice at the top level
+				}
 			}
 		}
 	}
